@@ -1,3 +1,4 @@
 //! Reference models (DESIGN.md §5.4). Nothing in this crate depends on an apollo crate.
+pub mod ast;
 pub mod lex;
 pub mod strings;
